@@ -79,6 +79,8 @@ class Sched:
         self.fine_p = 0.15
         self.fine_files = ("subscription.py", "server.py")
         self.fine_server_factor = 0.25      # server.py has many more (mostly thread-local) lines than subscription.py
+        self.fine_focus = None              # function names to concentrate the preemptions on (see extract.changed_functions)
+        self.fine_focus_p = 0.7
 
     def tracer(self, frame, event, arg):
         """sys.settrace hook of fine-grained mode: line-level preemption inside the library's own files (used to
@@ -88,6 +90,9 @@ class Sched:
             return None
 
         p_here = self.fine_p if fn.endswith("subscription.py") else self.fine_p * self.fine_server_factor
+        if self.fine_focus and frame.f_code.co_name in self.fine_focus:
+            # a function whose structure differs from the recorded one: preempt at (nearly) every line of it
+            p_here = self.fine_focus_p
 
         def local(frame, event, arg):
             if event == "line" and not self.aborting and self.fine.random() < p_here:
@@ -433,9 +438,25 @@ class ThreadPoolExecutor:
         lt.op = ("task-start", name)
         lt.meta["fn"] = fn
         lt.meta["executor"] = ex
+        lt.meta["submitter"] = SCHED.me().name if SCHED.me() is not None else None
         lt.meta["future"] = fut
         SCHED.event("submit", name)
         return fut
+
+    def map(self, fn, *iterables, timeout=None, chunksize=1):
+        futs = [self.submit(fn, *args) for args in zip(*iterables)]
+
+        def results():
+            for f in futs:
+                yield f.result(timeout)
+        return results()
+
+    def __enter__(self):
+        return self
+
+    def __exit__(self, *a):
+        self.shutdown(wait=True)
+        return False
 
     def shutdown(self, wait=True, *, cancel_futures=False):
         self.shut = True
